@@ -281,3 +281,14 @@ SPECS["C09"] = node_spec(
     "Theorems: Props/C09.v over M/Raft.v, M/RawNode.v. Tie: pointwise differential, projection conf+hard+log+results.")
 
 SPECS["C09"]["incoq"] = {"quick": 40, "thorough": 200}
+
+# The cluster-safety monitors (search only, implementation alone) also run on every check of C01-C05:
+# they cover executions in which the membership changes, where the P-level traces end.
+for _pid in ("C01", "C02", "C03", "C04", "C05"):
+    SPECS[_pid]["always_monitor"] = True
+
+# Component mechanics a node-level property's statement rests on: the component's own lockstep
+# differential (cached, shared with the component property) is part of that property's tie.
+for _pid, _comps in (("C05", ["C14"]), ("C03", ["C14"]), ("C07", ["C14"]), ("C15", ["C14"]),
+                     ("C13", ["C18"]), ("C04", ["C11"]), ("C09", ["C12"])):
+    SPECS[_pid]["components"] = _comps
